@@ -228,21 +228,22 @@ fn jobs(ctx: &Ctx) -> Vec<Job> {
         v.push(Job { k: 10, near: h(10) + 4, max_erased: 1, threshold: 250 });
         v.push(Job { k: 12, near: h(12) + 2, max_erased: 1, threshold: 0 });
     } else {
-        for k in [1u32, 2, 4, 5] {
+        for k in [1u32, 2, 4] {
             for th in [250u32, 0] {
                 v.push(Job { k, near: h(k) + 4, max_erased: k as usize, threshold: th });
             }
         }
-        v.push(Job { k: 9, near: h(9) + 4, max_erased: 2, threshold: 250 });
-        v.push(Job { k: 10, near: h(10) + 4, max_erased: 3, threshold: 250 });
+        v.push(Job { k: 5, near: h(5) + 4, max_erased: 5, threshold: 250 });
+        v.push(Job { k: 9, near: h(9) + 4, max_erased: 1, threshold: 0 });
+        v.push(Job { k: 10, near: h(10) + 4, max_erased: 2, threshold: 250 });
         v.push(Job { k: 10, near: h(10) + 4, max_erased: 1, threshold: 0 });
-        v.push(Job { k: 11, near: h(11) + 4, max_erased: 2, threshold: 250 });
-        v.push(Job { k: 12, near: h(12) + 4, max_erased: 2, threshold: 0 });
+        v.push(Job { k: 11, near: h(11) + 4, max_erased: 1, threshold: 250 });
+        v.push(Job { k: 12, near: h(12) + 4, max_erased: 1, threshold: 0 });
         for k in [13u32, 18, 19, 20, 26] {
-            v.push(Job { k, near: h(k) + 4, max_erased: 1, threshold: if k % 2 == 0 { 250 } else { 0 } });
+            v.push(Job { k, near: h(k) + 2, max_erased: 1, threshold: if k % 2 == 0 { 250 } else { 0 } });
         }
         for k in [46u32, 49, 55, 60, 101] {
-            v.push(Job { k, near: h(k) + 2, max_erased: 1, threshold: if k % 2 == 0 { 0 } else { 250 } });
+            v.push(Job { k, near: h(k), max_erased: 1, threshold: if k % 2 == 0 { 0 } else { 250 } });
         }
     }
     v
